@@ -166,17 +166,18 @@ CLAIMS["C21"] = {
     "text": "Theorems: a walker guarded by DepthGuard::increment never goes deeper than limit+1 and restores the counter (depth_guard_bound), and reports the limit if and only if the "
             "nesting below it exceeds what the limit leaves (limit_yields_diagnostic), for every nesting shape; DiagnosticList::sort is a permutation, sorted by (file, offset) with None first, "
             "and stable (sort_perm / sort_sorted / sort_stable); detect_fragment_cycles terminates on every document, cyclic or not (the model is accepted by Lean through a well-founded "
-            "measure on limit+1-|path|), its RecursionStack never holds more than limit+1 names, and a reported cycle is a real chain of spreads back to the fragment "
-            "(fragment_cycle_stack_bound / fragment_cycle_sound). The three models are tied to the real DepthCounter/DepthGuard, DiagnosticList::sort (cfg hooks) and validate_fragment_cycles "
-            "(through ast::Document::validate_standalone_executable) by correspondence: all balanced shapes up to length 10/12 x limits, random keys with ties, random fragment graphs and "
-            "chains of 90-112 fragments around the limit of 100. PARTIAL: 'no panic, no stack overflow' of build/validate/serialize/introspect/render as a whole is explored on the "
-            "implementation, not proved: 12 families of otherwise valid documents (fragment, directive, input-object chains; selection, inline fragment, list type, list/object value, "
-            "field-merge and variable nesting) at sizes around every internal limit (32, 100, 128, 500) and far above, and thousands of random self-referential schema+document soups "
+            "measure on limit+1-|path|), its RecursionStack never holds more than limit+1 names, its call depth (the fragment chain times the field / inline-fragment nesting inside each fragment) never exceeds "
+            "dlimit+1 frames, and a reported cycle is a real chain of spreads back to the fragment (fragment_cycle_stack_bound / fragment_cycle_depth_bound / fragment_cycle_sound). The three models are tied to the real DepthCounter/DepthGuard, DiagnosticList::sort (cfg hooks) and validate_fragment_cycles "
+            "(through ast::Document::validate_standalone_executable) by correspondence: all balanced shapes up to length 10/12 x limits, random keys with ties, random fragment graphs, "
+            "chains of 90-112 fragments around the limit of 100 and chains of 3-99 fragments whose nesting product sits around the depth limit of 500. PARTIAL: 'no panic, no stack overflow' of build/validate/serialize/introspect/render as a whole is explored on the "
+            "implementation, not proved: 14 families of otherwise valid documents (fragment, directive, input-object chains; selection, inline fragment, list type, list/object value, "
+            "field-merge and variable nesting; 98 chained fragments x n levels of fields or inline fragments) at sizes around every internal limit (32, 100, 128, 500) and far above, and thousands of random self-referential schema+document soups "
             "(mostly valid, then damaged), each in a child process on a 2 MiB thread stack, rendering every diagnostic as text, colour-capable report and JSON; oracles: child exits "
             "normally, no panic, every DiagnosticList in source order, an otherwise valid input is rejected only with a recursion-limit diagnostic.",
     "note": TB + "ariadne (report rendering) and serde_json are third-party code exercised, not modelled. Stack-overflow freedom is relative to a 2 MiB stack in the harness build profile "
             "(release + debug assertions); the guard theorems bound the recursion depth of a guarded walker, not the frame size. Other cycle detectors (directive definitions, input "
-            "objects, variables) use the same RecursionStack but are only explored, not modelled.",
+            "objects, variables) use the same RecursionStack but are only explored, not modelled. Two defects repaired: 3b32b6a (ariadne panic on a span inside a character), "
+            "3e87d32 (stack overflow in fragment cycle detection: chain x nesting).",
 }
 
 CLAIMS["C22"] = {
